@@ -227,7 +227,7 @@ def prog_strategy(start, tier):
             "a": st.lists(fl(-2, 2), min_size=dim, max_size=dim),
             "size": st.lists(fl(0.3, 2.5), min_size=dim, max_size=dim),
             "n": st.lists(st.integers(2, 4 if dim < 3 else 3), min_size=dim, max_size=dim),
-            "ops": st.lists(op_strategy(), min_size=2, max_size=7),
+            "ops": st.lists(op_strategy(), min_size=2, max_size=7 if tier == "quick" else 12),
         }
     )
 
@@ -496,7 +496,7 @@ def cont_strategy(dimkind, tier):
     op = st.fixed_dictionaries({"op": st.sampled_from(["append", "merge", "stack", "pop", "copy", "meshio", "iadd"]), "decimals": st.one_of(st.none(), st.integers(5, 10)),
                                 "member": member})
     return st.fixed_dictionaries({"members": st.lists(member, min_size=1, max_size=3), "merge": st.booleans(), "decimals": st.one_of(st.none(), st.integers(5, 10)),
-                                  "ops": st.lists(op, min_size=1, max_size=6)})
+                                  "ops": st.lists(op, min_size=1, max_size=6 if tier == "quick" else 12)})
 
 
 def cont_check(dimkind, case, rec):
